@@ -19,11 +19,15 @@
      without NUL / CR / LF), and the first line of the file contains a tab iff the writer's
      delimiter is tab and the header has >= 2 cells, or a header cell contains a tab.  What *is*
      modelled is the delimiter detection of the readers, the header/field logic and number typing;
-   * int(), float(), str(int), '%.nf' % float are modelled on character lists (ASCII); repr(float)
-     is abstract ([CRepr f], parsed back to f);
-   * repr(str) and the evaluation of a string literal are modelled on character lists (read_python /
-     write_python); str() of the other parameter values and its evaluation by exec are abstract
-     ([EOther v] evaluates to v for plain values). *)
+   * int(), float() (its grammar), str(int), '%.nf' % float are modelled on character lists (ASCII);
+   * repr(float) and the binary64 value float() gives to a decimal literal are an ORACLE: a record
+     [floatlayer] (frepr, fnearest); assumed (Spec.Float_OK): the text of repr(x) is a float literal of
+     the modelled grammar whose value is x again, int() rejects it, and it consists of the characters
+     of a float (digits . e + - and the letters of inf / nan);
+   * repr(str), str() / repr() of None, bool, int, float (through the oracle), lists and dictionaries
+     and the evaluation (exec) of these texts are modelled on character lists (read_python /
+     write_python: py_repr, ev);
+   * a path that does not exist / an empty file / a table without rows: [fstate], *_path functions. *)
 From Coq Require Import ZArith List Bool String Ascii.
 From PV Require Import Base.NpSearch Base.NpSort.
 Import ListNotations.
@@ -356,7 +360,7 @@ Inductive cell :=
                                         (-1)^neg * mant * 10^e10 *)
 | ONaN
 | OInf (neg : bool)
-| OFlt (f : ftok)                     (* float(repr(x)) = x *)
+| OFlt (f : ftok)                     (* an observed binary64 value (never produced by the model's readers) *)
 | OStr (s : string).
 
 Definition is_space (c : ascii) : bool :=
@@ -454,13 +458,12 @@ Definition py_float (l : list ascii) : option cell :=
         end
     end.
 
-(* the text of one csv cell: explicit characters, or repr(float) *)
-Inductive ctext := CT (s : string) | CRepr (f : ftok).
+(* the text of one csv cell *)
+Inductive ctext := CT (s : string).
 
 (* _try_make_number *)
 Definition try_make_number (t : ctext) : cell :=
   match t with
-  | CRepr f => OFlt f
   | CT s => match py_int (s2l s) with
             | Some z => OInt z
             | None => match py_float (s2l s) with
@@ -468,6 +471,21 @@ Definition try_make_number (t : ctext) : cell :=
                       | None => OStr s
                       end
             end
+  end.
+
+(* ---- oracle: repr(float) and the value of a float literal ---- *)
+Record floatlayer := mkfl {
+  frepr : ftok -> list ascii;             (* repr(x) = str(x) of a float x (what csv.writer / '%s' / repr(list) put in the text) *)
+  fnearest : bool -> Z -> Z -> ftok       (* the binary64 value float() / the compiler give to the decimal
+                                             literal (-1)^neg * mant * 10^e10 (strtod: correctly rounded) *)
+}.
+(* the double a cell typed by float() holds ([ODec]: the literal's exact decimal value, converted by the oracle) *)
+Definition cell_double (F : floatlayer) (c : cell) : option ftok :=
+  match c with
+  | ODec neg mant e10 => Some (fnearest F neg mant e10)
+  | ONaN => Some FNaN
+  | OInf neg => Some (FInf neg)
+  | _ => None
   end.
 
 (* ---------------------------------------------------------------------------------------------- *)
@@ -498,12 +516,12 @@ Definition render (n : Z) (v : value) : ctext :=
   | VFloat f => CT (l2s (fmt n f))
   | VStr s => CT s
   end.
-(* one cell of _write_tsv_simple: csv's str() *)
-Definition render_raw (v : value) : ctext :=
+(* one cell of _write_tsv_simple: csv's str(), which is repr() for a float *)
+Definition render_raw (F : floatlayer) (v : value) : ctext :=
   match v with
   | VNone => CT ""
   | VInt z => CT (l2s (show_int z))
-  | VFloat f => CRepr f
+  | VFloat f => CT (l2s (frepr F f))
   | VStr s => CT s
   end.
 
@@ -536,11 +554,11 @@ Definition get_cell (f : string) (r : row) : value :=
   match lookup String.eqb f r with Some v => v | None => VNone end.
 
 Definition has_tab (t : ctext) : bool :=
-  match t with CT s => existsb (Ascii.eqb ch_tab) (s2l s) | CRepr _ => false end.
+  match t with CT s => existsb (Ascii.eqb ch_tab) (s2l s) end.
 Definition is_empty_text (t : ctext) : bool :=
-  match t with CT s => String.eqb s "" | CRepr _ => false end.
+  match t with CT s => String.eqb s "" end.
 Definition text_str (t : ctext) : option string :=
-  match t with CT s => Some s | CRepr _ => None end.
+  match t with CT s => Some s end.
 
 (* {k: _try_make_number(v) for k, v in zip(field_names, row) if v != ''} as a sequence of assignments *)
 Fixpoint zip_cells (names : list string) (r : list ctext) : list (string * cell) :=
@@ -553,6 +571,7 @@ Fixpoint zip_cells (names : list string) (r : list ctext) : list (string * cell)
 Section Tables.
 Context {T : Type}.
 Variable V : csvlayer T.
+Variable F : floatlayer.
 
 (* write_tsv; the delimiter comes from the path suffix *)
 Definition write_tsv (dl : delim) (first : option string) (excl : list string) (n : Z)
@@ -580,7 +599,7 @@ Definition read_tsv (f : T) : option (list (list (string * cell))) :=
 (* _write_tsv_simple: rows sorted by cluster id *)
 Definition write_simple (dl : delim) (field : string) (data : list (Z * value)) : T :=
   csv_write V dl ([CT "cluster_id"; CT field] ::
-                  map (fun kv => [CT (l2s (show_int (fst kv))); render_raw (snd kv)]) (isort data)).
+                  map (fun kv => [CT (l2s (show_int (fst kv))); render_raw F (snd kv)]) (isort data)).
 
 (* _read_tsv_simple on an existing file *)
 Definition read_simple (f : T) : option (string * list (Z * cell)) :=
@@ -601,11 +620,13 @@ Definition read_simple (f : T) : option (string * list (Z * cell)) :=
 End Tables.
 
 (* the reference csv layer used by the correspondence: the text of a file is the delimiter it was
-   written with plus its rows of cells; read with another delimiter: not modelled *)
+   written with plus its rows of cells; read with another delimiter: not modelled, except that an
+   empty file has no rows under either delimiter *)
 Record tfile := mkfile { t_delim : delim; t_lines : list (list ctext) }.
 Definition ref_csv : csvlayer tfile :=
   mkcsv tfile mkfile
-        (fun dl f => if delim_eqb dl (t_delim f) then Some (t_lines f) else None)
+        (fun dl f => if delim_eqb dl (t_delim f) || match t_lines f with [] => true | _ => false end
+                     then Some (t_lines f) else None)
         (fun f => match t_lines f with
                   | [] => false
                   | h :: _ => (delim_eqb (t_delim f) Tab && (2 <=? zlen h)) || existsb has_tab h
@@ -684,9 +705,26 @@ Definition eval_str_lit (l : list ascii) : option (list ascii) :=
   | [] => None
   end.
 
-(* the right-hand side of one assignment `k = ...`: the text of a string literal (write_python calls
-   repr on str values), or str(v) of another value (abstract) *)
-Inductive pexpr := ELit (text : list ascii) | EOther (v : pyval).
+(* ---- repr() of the values a parameter dictionary holds: None, bool, int, float (oracle), str, lists
+   and string-keyed dictionaries of these.  str(v) = repr(v) for all of them except str itself, for
+   which write_python calls repr explicitly.  NumPy values are not modelled: a text exec rejects. ---- *)
+Definition ch_comma_ : ascii := ","%char.
+Definition ch_space : ascii := " "%char.
+Definition ch_colon : ascii := ":"%char.
+Definition ch_lbr : ascii := "["%char.
+Definition ch_rbr : ascii := "]"%char.
+Definition ch_lcb : ascii := "{"%char.
+Definition ch_rcb : ascii := "}"%char.
+Definition str_None : list ascii := s2l "None".
+Definition str_True : list ascii := s2l "True".
+Definition str_False : list ascii := s2l "False".
+
+(* ', '.join(texts) *)
+Fixpoint join_sep (l : list (list ascii)) : list ascii :=
+  match l with
+  | [] => []
+  | x :: r => match r with [] => x | _ => x ++ ch_comma_ :: ch_space :: join_sep r end
+  end.
 
 Definition finite (f : ftok) : bool := match f with FFin _ _ _ => true | _ => false end.
 (* values whose str() is a Python expression that evaluates to an equal value *)
@@ -698,14 +736,188 @@ Fixpoint plain (v : pyval) : bool :=
   | PDict l => forallb (fun kv => plain (snd kv)) l
   | PNp _ _ | PArr _ _ _ _ => false
   end.
-Definition eval_expr (e : pexpr) : option pyval :=
-  match e with
-  | ELit t => option_map (fun l => PStr (l2s l)) (eval_str_lit t)
-  | EOther v => match v with
-                | PStr _ => None                                (* str(v) of a str is not a literal *)
-                | _ => if plain v then Some v else None
-                end
+
+Section PyText.
+Variable F : floatlayer.
+
+Fixpoint py_repr (v : pyval) : list ascii :=
+  match v with
+  | PNone => str_None
+  | PBool b => if b then str_True else str_False
+  | PInt z => show_int z
+  | PFloat f => frepr F f
+  | PStr s => repr_str (s2l s)
+  | PList l => ch_lbr :: join_sep (map py_repr l) ++ [ch_rbr]
+  | PDict l => ch_lcb :: join_sep (map (fun kv => repr_str (s2l (fst kv)) ++ ch_colon :: ch_space :: py_repr (snd kv)) l)
+                      ++ [ch_rcb]
+  | PNp _ _ | PArr _ _ _ _ => s2l "<?>"
   end.
+
+(* ---- evaluation (exec) of such a text ---- *)
+(* a string literal after its opening quote [q]: the value and the text after the closing quote.  None
+   as for lit_body *)
+Definition cons_fst (c : ascii) (o : option (list ascii * list ascii)) : option (list ascii * list ascii) :=
+  match o with Some p => Some (c :: fst p, snd p) | None => None end.
+Fixpoint lit_rest (q : ascii) (l : list ascii) : option (list ascii * list ascii) :=
+  match l with
+  | [] => None
+  | c :: r =>
+      if Ascii.eqb c q then Some ([], r)
+      else if Ascii.eqb c ch_bs then
+        match r with
+        | e :: r' =>
+            let ez := code e in
+            if (ez =? 92) || (ez =? 39) || (ez =? 34) then cons_fst e (lit_rest q r')
+            else if ez =? 116 then cons_fst (chr 9) (lit_rest q r')
+            else if ez =? 110 then cons_fst (chr 10) (lit_rest q r')
+            else if ez =? 114 then cons_fst (chr 13) (lit_rest q r')
+            else if ez =? 120 then
+              match r' with
+              | h1 :: h2 :: r'' =>
+                  match hexval h1, hexval h2 with
+                  | Some a, Some b => if 16 * a + b <? 128
+                                      then cons_fst (chr (16 * a + b)) (lit_rest q r'')
+                                      else None
+                  | _, _ => None
+                  end
+              | _ => None
+              end
+            else None
+        | [] => None
+        end
+      else if (code c =? 10) || (code c =? 13) then None
+      else cons_fst c (lit_rest q r)
+  end.
+
+(* a name / number token ends at white space or at one of , ] } : *)
+Definition stop_char (c : ascii) : bool :=
+  is_space c || Ascii.eqb c ch_comma_ || Ascii.eqb c ch_rbr || Ascii.eqb c ch_rcb || Ascii.eqb c ch_colon.
+Fixpoint scan_tok (l : list ascii) : list ascii * list ascii :=
+  match l with
+  | c :: r => if stop_char c then ([], l) else let (t, rest) := scan_tok r in (c :: t, rest)
+  | [] => ([], [])
+  end.
+
+(* after an optional sign, a digit or a point: the token is a number, not a name *)
+Definition is_num_start (t : list ascii) : bool :=
+  match snd (split_sign t) with c :: _ => is_digit c || Ascii.eqb c ch_dot | [] => false end.
+
+(* None / True / False, a decimal integer literal (no leading zero unless it is zero), a float literal
+   (its value: the oracle's correctly rounded conversion), with an optional sign.  Everything else
+   (names such as nan / inf, calls, operators, complex and non-decimal literals): None *)
+Definition eval_atom (t : list ascii) : option pyval :=
+  if chars_eqb t str_None then Some PNone
+  else if chars_eqb t str_True then Some (PBool true)
+  else if chars_eqb t str_False then Some (PBool false)
+  else if is_num_start t then
+    match py_int t with
+    | Some z => match snd (split_sign t) with
+                | c :: _ :: _ => if Ascii.eqb c "0"%char && negb (z =? 0) then None else Some (PInt z)
+                | _ => Some (PInt z)
+                end
+    | None => match py_float t with
+              | Some (ODec neg mant e10) => Some (PFloat (fnearest F neg mant e10))
+              | _ => None
+              end
+    end
+  else None.
+
+Definition is_quote (c : ascii) : bool := Ascii.eqb c ch_sq || Ascii.eqb c ch_dq.
+
+(* one expression at the head of the text: the value and the rest of the text.  Lists and dictionaries
+   in the layout repr() gives them (", " and ": " separators); a dictionary display is built by
+   successive assignment (a repeated key keeps its first position and takes the last value), members in
+   textual order.  fuel bounds the nesting depth plus the number of members *)
+Fixpoint ev (fuel : nat) (l : list ascii) {struct fuel} : option (pyval * list ascii) :=
+  match fuel with
+  | O => None
+  | S fu =>
+      match l with
+      | [] => None
+      | c :: r =>
+          if is_quote c then
+            match lit_rest c r with Some p => Some (PStr (l2s (fst p)), snd p) | None => None end
+          else if Ascii.eqb c ch_lbr then
+            match r with
+            | c2 :: r2 => if Ascii.eqb c2 ch_rbr then Some (PList [], r2) else ev_list fu r []
+            | [] => None
+            end
+          else if Ascii.eqb c ch_lcb then
+            match r with
+            | c2 :: r2 => if Ascii.eqb c2 ch_rcb then Some (PDict [], r2) else ev_dict fu r []
+            | [] => None
+            end
+          else let (t, rest) := scan_tok l in
+               match eval_atom t with
+               | Some v => Some (v, rest)
+               | None => None
+               end
+      end
+  end
+with ev_list (fuel : nat) (l : list ascii) (acc : list pyval) {struct fuel} : option (pyval * list ascii) :=
+  match fuel with
+  | O => None
+  | S fu =>
+      match ev fu l with
+      | Some (v, c :: rest) =>
+          if Ascii.eqb c ch_comma_ then
+            match rest with
+            | sp :: rest' => if Ascii.eqb sp ch_space then ev_list fu rest' (v :: acc) else None
+            | [] => None
+            end
+          else if Ascii.eqb c ch_rbr then Some (PList (rev (v :: acc)), rest)
+          else None
+      | _ => None
+      end
+  end
+with ev_dict (fuel : nat) (l : list ascii) (acc : list (string * pyval)) {struct fuel} : option (pyval * list ascii) :=
+  match fuel with
+  | O => None
+  | S fu =>
+      match l with
+      | q :: r =>
+          if is_quote q then
+            match lit_rest q r with
+            | Some (k, c1 :: c2 :: r2) =>
+                if Ascii.eqb c1 ch_colon && Ascii.eqb c2 ch_space then
+                  match ev fu r2 with
+                  | Some (v, c :: rest) =>
+                      if Ascii.eqb c ch_comma_ then
+                        match rest with
+                        | sp :: rest' => if Ascii.eqb sp ch_space then ev_dict fu rest' ((l2s k, v) :: acc) else None
+                        | [] => None
+                        end
+                      else if Ascii.eqb c ch_rcb
+                      then Some (PDict (dict_of_list String.eqb (rev ((l2s k, v) :: acc))), rest)
+                      else None
+                  | _ => None
+                  end
+                else None
+            | _ => None
+            end
+          else None
+      | [] => None
+      end
+  end.
+
+(* the right-hand side of one assignment `k = text`: a string literal alone goes through eval_str_lit
+   (the function the repr(str) theorems are about; lit_rest agrees with it, ProofsPy2), anything else
+   through ev, which must consume the whole text *)
+Definition eval_expr (text : list ascii) : option pyval :=
+  match text with
+  | c :: _ =>
+      if is_quote c then option_map (fun l => PStr (l2s l)) (eval_str_lit text)
+      else match ev (S (List.length text)) text with
+           | Some (v, []) => Some v
+           | _ => None
+           end
+  | [] => None
+  end.
+
+(* write_python: one line `k = v` per item, v = repr(v) for a str, str(v) otherwise *)
+Definition write_python (d : list (string * pyval)) : list (string * list ascii) :=
+  map (fun kv => (fst kv, py_repr (snd kv))) d.
+End PyText.
 
 Definition is_alpha_ (c : ascii) : bool :=
   let z := code c in ((65 <=? z) && (z <=? 90)) || ((97 <=? z) && (z <=? 122)) || (z =? 95).
@@ -720,19 +932,37 @@ Definition keywords : list string :=
    "is"; "lambda"; "nonlocal"; "not"; "or"; "pass"; "raise"; "return"; "try"; "while"; "with"; "yield"])%string.
 Definition lower_str (s : string) : string := l2s (map lower (s2l s)).
 
-(* write_python: one line `k = v` per item, v = repr(v) for a str, str(v) otherwise *)
-Definition write_python (d : list (string * pyval)) : list (string * pexpr) :=
-  map (fun kv => (fst kv, match snd kv with
-                          | PStr s => ELit (repr_str (s2l s))
-                          | v => EOther v
-                          end)) d.
-
 (* read_python: exec() the lines into a dict, then lower-case the keys *)
-Definition read_python (lines : list (string * pexpr)) : option (list (string * pyval)) :=
+Definition read_python (F : floatlayer) (lines : list (string * list ascii)) : option (list (string * pyval)) :=
   match mapM (fun ke => if is_ident (fst ke) && negb (smem (fst ke) keywords)
-                        then option_map (pair (fst ke)) (eval_expr (snd ke))
+                        then option_map (pair (fst ke)) (eval_expr F (snd ke))
                         else None) lines with
   | Some kvs => Some (dict_of_list String.eqb
                         (map (fun kv => (lower_str (fst kv), snd kv)) (dict_of_list String.eqb kvs)))
   | None => None
   end.
+
+(* ---------------------------------------------------------------------------------------------- *)
+(* paths that do not exist, empty files (outside the statement: there is no matching save; kept so   *)
+(* that every line of the anchored functions is compared with the model)                             *)
+(* ---------------------------------------------------------------------------------------------- *)
+Inductive fstate (T : Type) := FMissing | FFile (t : T).
+Arguments FMissing {T}.
+Arguments FFile {T} _.
+
+(* load_json(path): IOError when the path does not exist *)
+Definition load_json_path (C : codec) {T : Type} (L : textlayer T) (p : fstate T) : option (list (key * pyval)) :=
+  match p with FMissing => None | FFile t => load_json_text C L t end.
+(* read_tsv(path): [] when the path does not exist *)
+Definition read_tsv_path {T : Type} (V : csvlayer T) (p : fstate T) : option (list (list (string * cell))) :=
+  match p with FMissing => Some [] | FFile t => read_tsv V t end.
+(* _read_tsv_simple(path): the empty dict {} (not a pair) when the path does not exist *)
+Inductive simple_out := SNoFile | SOut (field : string) (data : list (Z * cell)).
+Definition read_simple_path {T : Type} (V : csvlayer T) (p : fstate T) : option simple_out :=
+  match p with
+  | FMissing => Some SNoFile
+  | FFile t => match read_simple V t with Some (f, d) => Some (SOut f d) | None => None end
+  end.
+(* read_python(path): IOError when the path does not exist *)
+Definition read_python_path (F : floatlayer) (p : fstate (list (string * list ascii))) : option (list (string * pyval)) :=
+  match p with FMissing => None | FFile t => read_python F t end.
